@@ -12,7 +12,8 @@ import z3
 
 from . import extract
 from . import state as st
-from .contracts import (Arr, Bool, Contract, Ctx, Flt, Int, Loop, Tup, ListOf, Rec, labelled, make_symbolic, wrap)
+from .contracts import (Arr, ArrView, Bool, Contract, Ctx, Flt, Int, Loop, RecView, Sort, Tup, ListOf, Rec, labelled,
+                        make_symbolic, wrap)
 from .values import (FIN, NAN, NINF, NONE, PINF, Mode, SArr, SBool, SFloat, SFunc, SInt, SList, SNone,
                      SRecord, SStr, STuple, Unsupported, And, Implies, Ite, Not, Or, drain_side_constraints,
                      fresh_name, fsqrt, int_sort, merge_values, to_bool, to_float, to_int,
@@ -235,6 +236,17 @@ class Engine:
         if not getattr(fr, 'canary_done', False):
             fr.canary_done = True
             self.oblige(fr, s, 'canary', 'false-is-refutable', SBool(False), lineno, expect='refutable')
+        # frame: python lists passed in and not in `modifies` keep their items
+        for name, v in fr.entry_vals.items():
+            if isinstance(v, SList) and name not in c.modifies:
+                before, after = fr.entry_lists.get(v.lid, ()), s.lists.get(v.lid, ())
+                if before is not after:
+                    same = SBool(len(before) == len(after))
+                    if same.v:
+                        for x, y in zip(before, after):
+                            if x is not y and not values_equal_syntactically(x, y):
+                                same = same & _cells_equal(x, y)
+                    self.oblige(fr, s, 'frame', f'{name}-list-unchanged', same, lineno)
         # frame: parameter arrays not in `modifies` must be unchanged
         for name, v in fr.entry_vals.items():
             for arr in _arrays_in(v, fr.entry_lists):
@@ -282,7 +294,10 @@ class Engine:
         if m is None:
             raise Unsupported(f"statement {type(node).__name__} at line {node.lineno}")
         self.cur_line = node.lineno
-        r = m(node, s, fr)
+        try:
+            r = m(node, s, fr)
+        except RaisesException as e:
+            r = [('raise', s, (e.exc, node.lineno))]
         for sc in drain_side_constraints():
             s.pc.append(sc)
         return r
@@ -898,6 +913,8 @@ class Engine:
                     items[k] = merge_values(i == k, v, items[k])
             s.lists[obj.lid] = tuple(items)
             return
+        if isinstance(obj, STuple):
+            raise RaisesException('TypeError')
         if not isinstance(obj, SArr):
             raise Unsupported(f"subscript store into {type(obj).__name__}")
         items = self.index_items(sl, s, fr)
@@ -918,6 +935,10 @@ class Engine:
     # ------------------------------------------------------------------ expressions
 
     def truthy(self, v, s):
+        if isinstance(v, SArr) and v.base.meta.get('buffer'):
+            return v.length() > 0          # a pyarrow Buffer is truthy iff it is non-empty
+        if isinstance(v, SRecord):
+            return SBool(True)
         if isinstance(v, SList):
             return SBool(len(s.lists[v.lid]) > 0)
         if isinstance(v, STuple):
@@ -959,7 +980,19 @@ class Engine:
         raise Unsupported(f"unknown name {node.id!r} at line {node.lineno}")
 
     def expr_Tuple(self, node, s, fr):
-        return STuple(self.eval(e, s, fr) for e in node.elts)
+        out = []
+        for e in node.elts:
+            if isinstance(e, ast.Starred):
+                v = self.eval(e.value, s, fr)
+                out.extend(v.items if isinstance(v, STuple) else s.lists[v.lid])
+            else:
+                out.append(self.eval(e, s, fr))
+        return STuple(out)
+
+    def expr_GeneratorExp(self, node, s, fr):
+        lc = ast.ListComp(elt=node.elt, generators=node.generators)
+        ast.copy_location(lc, node)
+        return self.expr_ListComp(lc, s, fr)
 
     def expr_List(self, node, s, fr):
         return s.new_list([self.eval(e, s, fr) for e in node.elts])
@@ -1051,9 +1084,12 @@ class Engine:
         return acc
 
     def compare(self, op, a, b, s, fr):
-        if isinstance(a, SArr) or isinstance(b, SArr):
+        if (isinstance(a, SArr) or isinstance(b, SArr)) and not isinstance(op, (ast.Is, ast.IsNot)):
             return bnp.elementwise_compare(self, s, fr, op, a, b)
         if isinstance(op, (ast.Is, ast.IsNot)):
+            if isinstance(a, SStr) and a.s.startswith('type:'):
+                same = a.s[5:] == bnp.class_name(b)
+                return SBool(same if isinstance(op, ast.Is) else not same)
             same = isinstance(a, SNone) and isinstance(b, SNone)
             if not (isinstance(a, SNone) or isinstance(b, SNone)):
                 raise Unsupported("'is' on non-None")
@@ -1255,6 +1291,23 @@ class Engine:
     def expr_Lambda(self, node, s, fr):
         raise Unsupported("lambda")
 
+    def check_param_type(self, fr, s, callee, pname, pspec, aval, lineno):
+        """the callee's contract types a parameter as finite: the caller must establish it"""
+        if isinstance(pspec, Flt) and pspec.finite and isinstance(aval, SFloat) and not aval.known_finite:
+            self.oblige(fr, s, 'pre', f'{callee.simple_name}.{pname}-finite', aval.is_fin(), lineno)
+        elif isinstance(pspec, Tup) and isinstance(aval, STuple):
+            for k, (sp, av) in enumerate(zip(pspec.items, aval.items)):
+                self.check_param_type(fr, s, callee, f'{pname}[{k}]', sp, av, lineno)
+        elif isinstance(pspec, Arr) and pspec.finite and isinstance(aval, SArr) and aval.elem == 'float' \
+                and not aval.base.finite:
+            from .values import forall
+            from .builtins_np import cell
+            if aval.ndim != 1:
+                raise Unsupported("finiteness of an n-d array argument")
+            n = aval.length()
+            self.oblige(fr, s, 'pre', f'{callee.simple_name}.{pname}-finite',
+                        forall('int', lambda k: Implies(And(k >= 0, k < n), to_float(cell(s, aval, k)).is_fin())), lineno)
+
     # ------------------------------------------------------------------ calls to functions under contract
 
     def call_contract(self, callee, args, s, fr, lineno):
@@ -1265,6 +1318,8 @@ class Engine:
         pre_heap = dict(s.heap)
         pre_lists = dict(s.lists)
         pre = Ctx(vals, pre_heap, pre_lists, config=fr.config)
+        for (pname, pspec), aval in zip(params, args):
+            self.check_param_type(fr, s, callee, pname, pspec, aval, lineno)
         for label, b in labelled(callee.requires(pre) if callee.requires else None, 'requires'):
             self.oblige(fr, s, 'pre', f'{callee.simple_name}.{label}', b, lineno)
         for name in callee.modifies:
@@ -1275,6 +1330,9 @@ class Engine:
         rspec = callee.returns(pre) if callable(callee.returns) else callee.returns
         if rspec is None:
             result = NONE
+        elif not isinstance(rspec, Sort):
+            # alias return: the contract names the very value returned (e.g. a view of an existing buffer)
+            result = _unwrap(rspec)
         else:
             result, assumptions = make_symbolic(rspec, s, callee.simple_name + '_r')
             for a in assumptions:
@@ -1291,6 +1349,22 @@ class Engine:
 
 
 # ---------------------------------------------------------------------- helpers
+
+def _unwrap(v):
+    """contract-side views back to engine values"""
+    if isinstance(v, ArrView):
+        return v.arr
+    if isinstance(v, RecView):
+        return v._rec
+    if isinstance(v, (tuple, list)):
+        return STuple(_unwrap(x) for x in v)
+    return v
+
+
+class RaisesException(Exception):
+    def __init__(self, exc):
+        self.exc = exc
+
 
 def _as_load(t):
     t2 = ast.parse(ast.unparse(t), mode='eval').body
